@@ -185,11 +185,17 @@ func suiteC17(r *Run) {
 			for k := 0; k < ncopts; k++ {
 				copts = append(copts, grpc.WaitForReady(true))
 			}
+			// the recording base takes any name: also one without the leading slash (legal for a ClientConnInterface)
+			noSlash := (baseKind == "rec" || baseKind == "recf") && rng.Chance(35)
+			mU, mB := mUnary, mBidi
+			if noSlash {
+				mU, mB = mUnary[1:], mBidi[1:]
+			}
 			if kind == "unary" {
-				err = ch.Invoke(ctx, mUnary, &Msg{}, &Msg{}, copts...)
+				err = ch.Invoke(ctx, mU, &Msg{}, &Msg{}, copts...)
 			} else {
 				var cs grpc.ClientStream
-				cs, err = ch.NewStream(ctx, descBidi, mBidi, copts...)
+				cs, err = ch.NewStream(ctx, descBidi, mB, copts...)
 				if cs != nil {
 					cs.CloseSend()
 				}
@@ -203,7 +209,7 @@ func suiteC17(r *Run) {
 			}
 			// keep interceptor events and recording-base events only
 			ans := strings.Join(log, " ") + " =>" + res
-			r.Op(sprintf("C17 %s base=%s layers=%s copts=%d", kind, baseKind, strings.Join(lspec, ","), ncopts), ans)
+			r.Op(sprintf("C17 %s base=%s layers=%s copts=%d slash=%s", kind, baseKind, strings.Join(lspec, ","), ncopts, b01(!noSlash)), ans)
 			r.Eval(fmt.Sprint(kind, baseKind, lspec), depth >= 2 || strings.Contains(strings.Join(lspec, ","), "-"))
 			r.Count("base:" + baseKind)
 			r.TracesOnImpl++
@@ -242,9 +248,9 @@ func suiteC17(r *Run) {
 			}
 			// method name and options: every layer (and finally the wrapped channel) receives exactly what the layer above forwarded
 			cur, stopped := ncopts, false
-			curM := mUnary
+			curM := mU
 			if kind == "stream" {
-				curM = mBidi
+				curM = mB
 			}
 			var wantOpts []string
 			for i := depth - 1; i >= 0 && !stopped; i-- {
@@ -272,7 +278,10 @@ func suiteC17(r *Run) {
 			}
 			var gotOpts []string
 			for _, e := range log {
-				if k := strings.Index(e, "/grpchantesting"); k >= 0 {
+				if k := strings.Index(e, "grpchantesting"); k >= 0 {
+					if k > 0 && e[k-1] == '/' {
+						k--
+					}
 					gotOpts = append(gotOpts, e[k:])
 				}
 			}
